@@ -14,6 +14,8 @@ R16.4 reader side: the per-state flags (allow_unmatched, auto_newline_off, auto_
 R16.3 gap handling: the token type TokenBuffer::add gives to unmatched gap text is the constant INVALID_TOKEN and
       Token::is_skip_token treats exactly that constant (besides the built-in skip tokens) as skipped - allowed gaps are
       ignored by the parser but kept.
+R16.5 = C14 R14.2 re-evaluated: every token is buffered behind the gap test, the gap test is the only condition of the gap
+      token, the gap token carries input[gap.start..gap.end] ("kept in the parse tree").
 """
 import json
 
@@ -269,3 +271,7 @@ def r16_4(ctx, facts):
                       "states (e.g. a global %%allow_unmatched removing the error rule everywhere)"
                       % (short(b.path), p[-1][2]), where(b, line))
     ctx.require_floor("R16.4", "flag_writes", n, 6)
+    # ---------------------------------------------------------------- R16.5 = C14's gap rules (added after seed C16-b)
+    # "kept in the parse tree": with allow-unmatched the only carrier of unmatched text is the gap token of TokenBuffer::add
+    from . import c14
+    c14.gap_rules(ctx, facts, rule="R16.5")
